@@ -406,6 +406,8 @@ def check_allocator(ctx):
 
 
 def check(ctx):
+    from . import c14
+    c14.check_level_loops(ctx)     # the live set covers every level
     check_gc(ctx)
     check_add_files(ctx)
     check_pending(ctx)
